@@ -241,6 +241,11 @@ sprh('PaletteHeader_ctor', ['C10', 'C18'], replace=['SectionHeader_ctor0'])
 sprh('PaletteHeader_CreatePaletteHeader', ['C10', 'C18'], replace=['SectionHeader_ctor2', 'PaletteHeader_ctor'])
 sprh('PaletteHeader_Validate', ['C10', 'C11'], reach=EXC2, replace=['SectionHeader_Validate', 'SectionHeader_TotalLength'])
 sprh('ArtFile_VerifyImageIndexInBounds', ['C11'], reach=EXC2)
+AW_T = [WR_TRUST, 'the steps of ArtFile::Write by use-mode framing contracts (ghost step counter, ghost lengths); CountFrames and WriteAnimation as assumed abstract contracts; Animation is an opaque placeholder in the unit']
+sprh('ArtFile_Write', ['C10', 'C20'], reach=EXC2, replace=['ArtFile_ValidateImageMetadata_U', 'ArtFile_WritePalettes_U', 'Writer_WriteSized_u32_vec_ImageMeta', 'ArtFile_WriteAnimations_U'], trusted=AW_T,
+     what='PRT writer pipeline: validation first (invalid table writes nothing), then palettes, image table, animations; total length = sum of the sections')
+sprh('ArtFile_WriteAnimations', ['C10', 'C20'], reach=EXC2, replace=['Wr_Write', 'ArtFile_CountFrames_U', 'ArtFile_WriteAnimation_U'], trusted=AW_T, flags=['--object-bits', '12'], timeout=600,
+     what='animation section header: animation count and the three CountFrames totals as the four leading 32-bit words; counts above 2^32 - 1 refused')
 RA_R = RD + ['Rd_ReadU32T', 'vec_Animation_resize', 'ArtFile_ReadAnimation_U', 'ArtFile_VerifyCountsMatchHeader_U']
 RA_T = [KR_TRUST, 'ReadAnimation, VerifyCountsMatchHeader (CountFrames) and vector resize as assumed abstract contracts; Animation is an opaque placeholder in this unit (only moved)']
 sprh('ArtFile_ReadAnimations', ['C10', 'C11'], reach=EXC2, replace=RA_R, trusted=RA_T, defines=['OP2_RA_LIGHT'], flags=['--object-bits', '12'], timeout=600,
@@ -265,8 +270,8 @@ claim('C08', 'Bitmap geometry proved over the full 32-bit domain against an inde
       'NOT decided: the 4- and 5-argument CreateIndexed overloads, pixel content through write + read, flips of more than 3 rows (and hence "twice restores the original" beyond that). ASSUMED: vector resize / construction / reserve / insert(end(), first, last), BitmapFile default constructor.')
 claim('C09', 'Custom tileset header constants and validators proved against an independent description of the format (PBMP / head 0x14, tag count 2, width 32, depth 8, flags 8 / PPAL 1048, head 4, tag count 1 / data 1024 / data 32*h): TilesetHeader::Create/Validate, PpalHeader::Create/Validate, the three section validators, CalculatePixelHeaderLength, CalculatePbmpSectionSize, ValidateTileset (8 bit, width 32, height multiple of 32 in either orientation); Peek proved not to move the position (K_R); PeekIsCustomTileset proved to leave the stream where it stands at ANY position and to answer exactly "next four bytes are PBMP"; WriteCustomTileset proved against the format description (total length; PBMP length, pixel height and pixel-section length byte by byte; palette entry gi with red/blue exchanged; non-tilesets refused with nothing written); SwapPaletteRedAndBlue proved for every entry of a palette of any length; ReadCustomTileset proved on arbitrary bytes: memory safe, no undefined arithmetic (after fix D20), short inputs refused, exact consumption 1096 + |pixels|, result 8 bit / 32 wide / height a multiple of 32 / 256 colours / 32*|height| pixel bytes.',
       'ASSUMED: BitmapFile::InvertScanLines (negates height, same pixel count), BitmapFile::SwapRedAndBlue (frame). NOT decided: pixel and palette CONTENT through read and write (the picture round trip), orientation of the loaded picture for headers announcing more than 2^31 rows, tilesets of more than 2^27 - 64 rows (4 GiB; the 32-bit length fields wrap and the writer does not refuse). One trusted constant: PBMP section length 1068 + 32*h cannot be confirmed against the game offline.')
-claim('C10', 'PRT cross-field rule check (ValidateImageMetadata: scan line = width rounded up to 4, palette index names an existing palette) proved with a loop contract for any number of images; canonical palette header (PPAL 1048 / head 4 / 1 / data 1024) and its validator proved; SectionHeader constructors/validator proved; ReadFrame / WriteFrame proved against the frame grammar for every flag combination and count; ReadAnimations proved memory safe on arbitrary bytes and to run the count verification on EVERY normal return with exactly the totals the section header announces (also for files without animations).',
-      'ASSUMED: ReadAnimation, VerifyCountsMatchHeader / CountFrames, vector resize (abstract contracts; Animation is an opaque placeholder in the unit). NOT decided: CountFrames arithmetic, palette channel swap on read/write, structure round trip.')
+claim('C10', 'PRT cross-field rule check (ValidateImageMetadata: scan line = width rounded up to 4, palette index names an existing palette) proved with a loop contract for any number of images; canonical palette header (PPAL 1048 / head 4 / 1 / data 1024) and its validator proved; SectionHeader constructors/validator proved; ReadFrame / WriteFrame proved against the frame grammar for every flag combination and count; ReadAnimations proved memory safe on arbitrary bytes and to run the count verification on EVERY normal return with exactly the totals the section header announces (also for files without animations); ArtFile::Write proved to validate the image table BEFORE anything is written and to emit palettes, the size-prefixed image table and the animation section in the order the reader consumes them; WriteAnimations proved to start the section with the animation count and the three CountFrames totals (the words the reader re-computes and compares) and to refuse counts above 2^32 - 1.',
+      'ASSUMED: ReadAnimation, WriteAnimation, WritePalettes, VerifyCountsMatchHeader / CountFrames, vector resize (abstract contracts; Animation is an opaque placeholder in the unit). NOT decided: CountFrames arithmetic, palette channel swap on read/write, structure round trip.')
 claim('C11', 'Validators that guard the loaders are proved total and exact (every header validator throws iff a checked field deviates; image index check refuses index >= count; pixel-size check refuses negative width / INT32_MIN height); all with CBMC memory-safety and arithmetic checks on. Loader bodies proved on arbitrary bytes: ReadCustomTileset (safe, exact consumption, result satisfies the tileset invariant; found and fixed D20: abs(INT32_MIN) reachable from a 1096-byte file), BitmapFile::ReadIndexed and its four steps (result satisfies I_B), PeekIsCustomTileset, ArtFile::ReadFrame, ArtFile::ReadAnimations, BitmapFile::CreateIndexed for every height.',
       'NOT decided: ArtFile::ReadPalette / ReadImageMetadata / ReadAnimation bodies, SpriteLoader::ExtractImage (shared_ptr / chained temporaries: outside the extractor), follow-up operations InvertScanLines / WriteIndexed on loaded objects; resource exhaustion.')
 claim('C18', 'Two-run relational checks (uninitialised storage is independent nondeterministic data in each run) prove that every byte of each record built by the record constructors is determined by the arguments: MapHeader, Map (all serialised members incl. clipRect), ImageHeader::Create, BmpHeader::Create, SectionHeader, TilesetHeader::Create, PpalHeader::Create, PaletteHeader::CreatePaletteHeader.',
@@ -436,7 +441,7 @@ G('clm.PrepareIndex.bounded', ['C20', 'C03'], 'clm', None, harness='h_clm_prepar
   flags=['--unwind', '6', '--unwinding-assertions'], timeout=600, bounded='member count n <= 3 (data lengths fully symbolic)',
   what='bounded stand-in: PrepareIndex vs the CLM layout in 128-bit arithmetic: refuses iff an offset does not fit 32 bits, else offsets equal the description')
 claim('C20', 'Proved: size-prefixed writes (uint8/16/32 and int8/16 prefixes) refuse a container that does not fit the prefix and otherwise write prefix then data; WriteContainerSize refuses sizes above 2^32-1; CreateHeader refuses a tileset count above 32 bits and a non-power-of-two width; WriteFrame refuses a layer list that disagrees with its 7-bit count (all counts, all flag combinations). Bounded stand-ins (labelled bounded, not proof): VolFile::PrepareHeader and ClmFile::PrepareIndex for <= 3 members with fully symbolic 64-bit sizes against the layout in 128-bit arithmetic: refused iff a size or accumulated offset does not fit its field.',
-      'The VOL/CLM accumulated-offset clauses are bounded in the member count (n <= 3), not in the sizes. Refusal before creation of the destination: proved for VolFile::CreateArchive / WriteVolume and ClmFile::CreateArchive at the level of the pipeline order (every refusing step precedes the only step that constructs the FileWriter; the steps themselves by use-mode framing contracts, std::sort / vector plumbing assumed); CLM stored names longer than 8 characters are refused before WriteArchive (arbitrary index). NOT decided: ArtFile count checks.')
+      'The VOL/CLM accumulated-offset clauses are bounded in the member count (n <= 3), not in the sizes. Refusal before creation of the destination: proved for VolFile::CreateArchive / WriteVolume and ClmFile::CreateArchive at the level of the pipeline order (every refusing step precedes the only step that constructs the FileWriter; the steps themselves by use-mode framing contracts, std::sort / vector plumbing assumed); CLM stored names longer than 8 characters are refused before WriteArchive (arbitrary index). ArtFile animation / frame / layer totals above 2^32 - 1 are refused by WriteAnimations (totals themselves: CountFrames, assumed).')
 claim('C07', 'For ARBITRARY input bytes over any K_R stream ReadMapBeginning is proved to either throw or return a map whose width is a power of two and whose tile array has exactly height << log2(width) entries (no over-wide shift, no wrapped product, every short read refused), consuming at least the 46 fixed bytes; MapHeader::WidthInTiles/TileCount proved for every exponent <= 31; ReadVersionTag, ReadTilesetHeader, ReadTileGroup, SkipSaveGameHeader proved safe with their exact consumption or refusal; ReadSavedGameUnits proved memory safe on arbitrary bytes and to consume exactly the bytes the layout defines (both object tables sized by their own counts, free-unit table iff first != next free slot; wrong unit size and short input refused); ReadTileGroups proved memory safe and terminating on arbitrary bytes; the pipelines ReadMap (beginning, tag, tag, tile groups) and ReadSavedGame (0x1E025 bytes skipped, the same beginning, tag, unit section, tag) proved to run their steps in exactly that order, to compare both version tags with the tag of the map just read, and to consume the sum of the steps\' lengths - so a saved game embeds exactly the section sequence a map file starts with.',
       'ASSUMED abstract contracts: vector resize, Read<uint32_t>(container), ReadTilesetSources. The pipeline steps are bound to use-mode framing contracts (ghost step counter, ghost lengths). NOT decided: field-level equality of the map yielded by a saved game and by the embedded map file, resource exhaustion.')
 claim('C06', 'Header layer of the round trip proved: CreateHeader writes every header field from the map (width as its base-2 logarithm, saved flag normalised to 0/1), GetWidthInTilesLog2 / Log2OfPowerOf2 / IsPowerOf2 exact, MapHeader and Map constructors deterministic and as specified, version-tag checks exact, WriteContainerSize byte-exact; the tile index formula (C16 group); Map::Write proved to emit the sections in the order and with the sizes the reader consumes them (header, tiles, clip rectangle, tileset sources, TILE SET marker, size-prefixed mappings and terrain types, version tag twice, tile groups), with the version tags, the clip rectangle, the marker and the tile bytes at the offsets that layout gives, and to write nothing when it refuses; reader-side framing facts as in C07. Bounded stand-in: WriteTilesetSources writes exactly the table the reader consumes (tile count iff the name is not empty) for <= 4 sources.',
@@ -446,7 +451,7 @@ claim('C01', 'Proved: the comparator that orders members is a strict weak order 
 claim('C02', 'Writer => format: bounded byte-for-byte comparison of the written archive with an independent encoder of the VOL description (n <= 2) and of the header quantities in 128-bit arithmetic (n <= 3); section header bit layout proved. Format => reader: for arbitrary bytes ReadVolHeader establishes the archive invariant, CountValidEntries stops at the first unused slot (0xFFFFFFFF name offset), GetSize/GetCompressionCode return the recorded fields, OpenStream returns the recorded extent or refuses it; ordering facts as in C01/C19.',
       'Bounded in the member count for the writer side. NOT decided: name table content (ReadStringTable is abstract), acceptance by the game.')
 NOT_DECIDED.update({
- 'C20': ['ArtFile animation/frame count checks', 'VOL/CLM offsets: bounded in member count', 'pipeline steps of CreateArchive are bound to abstract framing contracts (std::sort, vector plumbing assumed)'],
+ 'C20': ['CountFrames arithmetic behind the ArtFile totals', 'VOL/CLM offsets: bounded in member count', 'pipeline steps of CreateArchive are bound to abstract framing contracts (std::sort, vector plumbing assumed)'],
  'C07': ['field-level saved-game vs map equivalence (pipeline order and consumption are decided)', 'resource exhaustion'],
  'C06': ['container-level round trip and byte stability', 'WriteTileGroups; WriteTilesetSources beyond 4 sources', 'TrimTilesetSources'],
  'C01': ['layout clauses bounded in member count', 'path spelling (ComparePathFilenames composition), std::sort itself, extraction to disk'],
